@@ -50,6 +50,13 @@ class ChainInterp(Interp):
                         raise Unsupported("replace of the empty string")
                     return SymText(o.kind, o.stages + (fst.Replace(dec(a[0]), dec(a[1])),))
                 return Native("replace", rep)
+            if name in ("encode", "decode"):
+                # a change of representation only (utf-8 / latin-1 are injective on what they
+                # accept): the rewriting recorded so far carries over
+                want = "bytes" if name == "encode" else "str"
+                if (o.kind == "str") != (name == "encode"):
+                    raise AbsRaise("AttributeError", f"'{o.kind}' object has no attribute {name!r}")
+                return Native(name, lambda i, a, k, o=o, want=want: SymText(want, o.stages))
             raise Unsupported(f"{name} on the symbolic text")
         return super().getattr(o, name)
 
@@ -67,6 +74,8 @@ def chains_by_interpretation(model, f):
             continue            # falls off the end for this kind (unescape_char on other types)
         if not isinstance(r, SymText):
             raise Unsupported(f"{f.qualname} returns {r!r} for a {kind} text")
+        if r.kind != kind:
+            raise Unsupported(f"{f.qualname} returns {r.kind} for a {kind} text")
         out[kind] = fst.Chain(list(r.stages), f.name)
     if not out:
         raise Unsupported(f"{f.qualname} accepts neither str nor bytes")
